@@ -356,7 +356,8 @@ func (c *compiler) compileMap(ce *ast.CallExpr) *mapTask {
 	}
 
 	typ := c.info.TypeOf(mmap)
-	mtype, ok := typ.(*types.Map)
+	// Like cff.Slice, accept named types whose underlying type is a map.
+	mtype, ok := typ.Underlying().(*types.Map)
 	if !ok {
 		c.errf(c.nodePosition(mmap), "the second argument to cff.Map must be a map, got %v", typ)
 		return nil
